@@ -110,9 +110,12 @@ def connect(listen, timeout=3.0):
     return socket.create_connection((host, int(port)), timeout=timeout)
 
 
-def handshake(listen, alpn, server_name="example.org", timeout=4.0):
-    """Returns dict(ok, alpn, cert_pem | error)."""
+def handshake(listen, alpn, server_name="example.org", timeout=4.0, max_tls12=False):
+    """Returns dict(ok, alpn, cert_pem | error).  max_tls12: a validation client that speaks TLS 1.2 at
+    most (RFC 8737 §3 only asks for "TLS 1.2 or higher")."""
     ctx = ssl.SSLContext(ssl.PROTOCOL_TLS_CLIENT)
+    if max_tls12:
+        ctx.maximum_version = ssl.TLSVersion.TLSv1_2
     ctx.check_hostname = False
     ctx.verify_mode = ssl.CERT_NONE
     if alpn is not None:
@@ -125,7 +128,7 @@ def handshake(listen, alpn, server_name="example.org", timeout=4.0):
         s = ctx.wrap_socket(raw, server_hostname=server_name)
         der = s.getpeercert(binary_form=True)
         pem = ssl.DER_cert_to_PEM_cert(der) if der else None
-        res = {"ok": True, "alpn": s.selected_alpn_protocol(), "cert_pem": pem}
+        res = {"ok": True, "alpn": s.selected_alpn_protocol(), "cert_pem": pem, "tls": s.version()}
         try:
             s.close()
         except Exception:
